@@ -253,6 +253,11 @@ class Tok(Native):
 
     upper = capitalize = lower
 
+    def strip(self, *a):
+        return self
+
+    rstrip = lstrip = strip
+
     def __add__(self, o):
         return AStr([self] + _parts(o))
 
@@ -294,6 +299,12 @@ class AStr(Native):
 
     def upper(self):
         return AStr([p.upper() for p in self.parts])
+
+    def strip(self, *a):
+        # surrounding blanks of a protocol line carry no meaning for any parser of the subject
+        return self
+
+    rstrip = lstrip = strip
 
     def __contains__(self, sub):
         for p in self.parts:
